@@ -348,9 +348,9 @@ func c17Docs(cfg Config, lim c17Limits) ([]corpus.Doc, error) {
 	}
 	// a TTML document with hundreds of cues, a transport stream of more than two 64 KiB blocks
 	docs = append(docs, corpus.LargeTTML(root.Derive("large-ttml", 0), 320))
-	docs = append(docs, corpus.Doc{Name: "ts-verylong", Format: "ts", Data: corpus.FixedTS(4, "very#long", 170), Cues: -1, Gen: true})
+	docs = append(docs, corpus.Doc{Name: "ts-verylong", Format: "ts", Data: corpus.FixedTS(4, "very#long", 700), Cues: -1, Gen: true})
 	// a transport stream long enough for cumulative effects (hundreds of packets)
-	docs = append(docs, corpus.Doc{Name: "ts-long", Format: "ts", Data: corpus.FixedTS(1, "long#stream", 30), Cues: -1, Gen: true})
+	docs = append(docs, corpus.Doc{Name: "ts-long", Format: "ts", Data: corpus.FixedTS(1, "long#stream", 60), Cues: -1, Gen: true})
 	// documents with one line longer than the line scanner can buffer: how such a document is treated must not
 	// depend on the delivery or on the reader type either
 	for _, f := range []string{"srt", "vtt", "ssa"} {
@@ -404,7 +404,7 @@ func RunC17(cfg Config) (*ShardResult, error) {
 			}
 			// with the PID given, the demuxer needs no rewind: whether the source can seek, or is a *bufio.Reader, must
 			// not matter either (with PID auto-detection it legitimately does: a non-seekable source cannot be rewound)
-			if (reader == "ts" || reader == "ts-pid") && cfg.Mine(Key64(dh, reader, "cross-medium")) {
+			if (reader == "ts" || reader == "ts-pid") && crossMediumApplies(d.Data) && cfg.Mine(Key64(dh, reader, "cross-medium")) {
 				base, _ := EvalRead(reader, d.Data, simio.ReadPlan{Medium: "seekable"})
 				for _, medium := range []string{"plain", "bufio"} {
 					o, _ := EvalRead(reader, d.Data, simio.ReadPlan{Medium: medium})
@@ -611,6 +611,17 @@ func c17RealReaders(cfg Config, reader string, d corpus.Doc, res *ShardResult) (
 	return vs
 }
 
+// crossMediumApplies: the kind of source may legitimately matter when the stream does not start with its two table
+// packets (a non-seekable source is synchronised by discarding the first two packets, which the demuxer has used
+// to probe the packet size) or is shorter than that; the cross-medium comparison is made only where it must hold.
+func crossMediumApplies(ts []byte) bool {
+	if len(ts) < 3*188 || len(ts)%188 != 0 {
+		return false
+	}
+	pid := func(i int) int { return (int(ts[i*188+1])&0x1f)<<8 | int(ts[i*188+2]) }
+	return ts[0] == 0x47 && ts[188] == 0x47 && pid(0) == 0 && pid(1) == 0x1000
+}
+
 // docCategory names the part of the corpus a document belongs to (evidence breakdown).
 func docCategory(d corpus.Doc) string {
 	switch {
@@ -678,6 +689,9 @@ func c17Probes(res *ShardResult, d corpus.Doc, p simio.ReadPlan, sr *simio.Reade
 // It returns a violation or nil.
 func CheckReadScenario(sc ReadScenario) *Violation {
 	if sc.Plan.Name == "cross-medium" {
+		if !crossMediumApplies(sc.Data) {
+			return nil
+		}
 		base, _ := EvalRead(sc.Reader, sc.Data, simio.ReadPlan{Medium: "seekable"})
 		o, _ := EvalRead(sc.Reader, sc.Data, simio.ReadPlan{Medium: sc.Plan.Medium})
 		if o.Key() == base.Key() {
